@@ -204,8 +204,8 @@ TYPES = [
     IdMacro(F_IDS, 'CharClassID', members=('as_usize',), index_for=(), specs=ID_SPECS),
     IdMacro(F_IDS, 'TerminalID', members=('as_usize',), index_for=(), specs=ID_SPECS),
     IdMacro(F_IDS, 'ScannerModeID', members=('as_usize',), index_for=(), specs=ID_SPECS),
-    Struct(F_SPAN, 'Span', derive=[]),
-    Struct(F_MATCH, 'Match', derive=[]),
+    Struct(F_SPAN, 'Span', derive=['Clone', 'Copy']),
+    Struct(F_MATCH, 'Match', derive=['Clone', 'Copy']),
     Struct(F_DFA, 'StateData', derive=[]),
     Struct(F_LA, 'CompiledLookahead', derive=[]),
     Struct(F_DFA, 'CompiledDfa', derive=[]),
@@ -225,6 +225,11 @@ pub struct CharacterClassRegistry { _private: () }
     Struct(F_SI, 'ScannerImpl', derive=[], dyn_param='M'),
     RawFile(os.path.join(os.path.dirname(os.path.abspath(__file__)), 'mode_spec.rs')),
     Fn(F_MATCH, 'Match', 'token_type', ret='r', spec='ensures r == self.token_type', props=['C06']),
+    Fn(F_MATCH, 'Match', 'start', ret='r', spec='ensures r == self.span.start'),
+    Fn(F_MATCH, 'Match', 'end', ret='r', spec='ensures r == self.span.end'),
+    Fn(F_MATCH, 'Match', 'span', ret='r', spec='ensures r == self.span'),
+    Fn(F_MATCH, 'Match', 'is_empty', ret='r', spec='ensures r == (self.span.start >= self.span.end)'),
+    Fn(F_SPAN, 'Span', 'is_empty', ret='r', spec='ensures r == (self.start >= self.end)'),
     dfa_find_from_contract,
     has_transition,
     execute_switch,
